@@ -248,6 +248,27 @@ func coreSkeletonGenFiles() []genFile {
 			{"linking/functions.go", "LinkSystem.Load", "load_skel_src", "Fill into a fresh builder, then the reifier (model: `Link.load`)"},
 			{"linking/functions.go", "LinkSystem.LoadPlusRaw", "loadPlusRaw_skel_src", "LoadRaw (hash checked) first, decode of the checked bytes second (model: `Link.loadPlusRaw` in Lemmas/LinkMore.lean)"},
 		})},
+		// helpers OUTSIDE the properties' own files that several seeded changes went through
+		{"StorageHelperSkeletons", genSkeletons([]skelSpec{
+			{"storage/funcs.go", "PutStream", "storagePutStream_skel_src", "the store's own PutStream, or a buffer committed with one Put"},
+			{"storage/funcs.go", "PutVec", "storagePutVec_skel_src", "the store's own PutVec, else its stream: every piece written, THEN one commit (a failed write commits nothing), else one Put of the concatenation"},
+			{"storage/funcs.go", "GetStream", "storageGetStream_skel_src", "the store's own stream, else a reader over Get"},
+			{"storage/funcs.go", "Peek", "storagePeek_skel_src", "the store's own Peek, else Get with a no-op closer"},
+		})},
+		{"CodecHelperSkeletons", genSkeletons([]skelSpec{
+			{"codecHelpers.go", "Encode", "helperEncode_skel_src", "a buffer of the call's own, handed to the caller"},
+			{"codecHelpers.go", "EncodeStreaming", "helperEncodeStreaming_skel_src", "typed nodes are encoded through their representation"},
+			{"codecHelpers.go", "DecodeStreamingUsingPrototype", "helperDecodeStreaming_skel_src", "the prototype's representation for typed prototypes; build after a successful decode only"},
+		})},
+		{"DatamodelHelperSkeletons", genSkeletons([]skelSpec{
+			{"datamodel/copy.go", "Copy", "dmCopy_skel_src", "one case per kind; maps and lists entry by entry through the assembler (model: `Asm.planOf`)"},
+			{"datamodel/equal.go", "DeepEqual", "dmDeepEqual_skel_src", "kind first, then scalars by value, lists in order, maps entry by entry in iteration order of both (model: `DM` equality, `deepEqual_iff`)"},
+			{"datamodel/pathSegment.go", "ParsePathSegment", "parsePathSegment_skel_src", "a segment parsed from text is held as that text (model: `Seg.str`)"},
+		})},
+		{"WalkInitSkeletons", genSkeletons([]skelSpec{
+			{"traversal/common.go", "Config.init", "configInit_skel_src", "defaults"},
+			{"traversal/common.go", "Progress.init", "progressInit_skel_src", "defaults into a private copy of the Config; a fresh seen-set per top-level walk"},
+		})},
 		{"FocusSkeletons", genSkeletons([]skelSpec{
 			{"traversal/focus.go", "Progress.get", "focusGet_skel_src", "segment-by-segment lookup, links loaded on the way (model: `Walk.get`)"},
 		})},
